@@ -143,6 +143,7 @@ structure DSt where
   shifts : Array (List (Rect × Int × Int)) := #[]
   closed : Array Bool := #[]
   prevGrid : Option (Array (Array Cell)) := none     -- the implementation's grid before this operation
+  unclipped : Bool := false     -- the history scrolled a region extending beyond an ancestor's bounds (known finding)
 deriving Inhabited
 
 def mkBeh (behs : Array (Option (List Instr))) (shifts : Array (List (Rect × Int × Int))) : Id → Rect → List DrawOp :=
@@ -168,7 +169,7 @@ def glyphChar (g : Nat) : Char :=
   if g = 32 then '~' else if g = 0 then '}' else if 33 ≤ g ∧ g ≤ 122 then Char.ofNat g else '{'
 
 def colourChar (v : Int) : Char :=
-  if -1 ≤ v ∧ v ≤ 8 then Char.ofNat (48 + (v + 1).toNat) else '?'
+  if -1 ≤ v ∧ v ≤ 40 then Char.ofNat (48 + (v + 1).toNat) else '!'
 
 def cellChars (x : Cell) : List Char :=
   [glyphChar x.glyph, colourChar x.fg, colourChar x.bg, if x.b then '1' else '0']
@@ -318,6 +319,31 @@ def specC02 (d : DSt) (o : ImplObs) : String :=
         bad.getD ""
       | _, _ => ""
 
+/-- Does the region `reg` of window `id` (in its own coordinates) stick out of some ancestor's bounds? -/
+def sticksOut (t : Tree) : Nat → Id → Rect → Bool
+  | 0, _, _ => false
+  | fuel + 1, id, reg =>
+    match t.wins[id]? with
+    | none => false
+    | some w =>
+      match w.parent with
+      | none => false
+      | some p =>
+        match t.wins[p]? with
+        | none => false
+        | some pw =>
+          let r := reg.translate w.rect.top w.rect.left
+          if !(Rect.contains ⟨0, 0, pw.rect.lines, pw.rect.cols⟩ r) then true else sticksOut t fuel p r
+
+def scrollSticksOut (t : Tree) (id : Id) (rect : Option Rect) : Bool :=
+  match t.wins[id]? with
+  | none => false
+  | some w =>
+    let self : Rect := ⟨0, 0, w.rect.lines, w.rect.cols⟩
+    match (match rect with | some r => Rect.intersect self r | none => some self) with
+    | none => false
+    | some reg => sticksOut t (t.wins.size + 1) id reg
+
 /-! ### stepping -/
 
 def parsePen (tok : String) : Option Pen :=
@@ -456,7 +482,7 @@ def runOp (d : DSt) (ts : List String) : DSt × String :=
             | .ub w => fail d w
             | .ok (st', ret, self) =>
               let sh := (self, dd, rr) :: (d.shifts.getD id []).take 63
-              finishOk { d with shifts := d.shifts.setIfInBounds id sh } st' (if ret then 1 else 0) none true
+              finishOk { d with shifts := d.shifts.setIfInBounds id sh, unclipped := d.unclipped || scrollSticksOut st.tree id none } st' (if ret then 1 else 0) none true
           | _ => (d, "bad-op")
         | "scrollrect", [t, l, n, k, dS, rS, pen] =>
           match ints? [t, l, n, k, dS, rS] with
@@ -469,6 +495,7 @@ def runOp (d : DSt) (ts : List String) : DSt × String :=
             match r with
             | .ub w => fail d w
             | .ok (st', ret, inter) =>
+              let d := { d with unclipped := d.unclipped || scrollSticksOut st.tree id (some rect) }
               let d := match inter with
                 | some i => { d with shifts := d.shifts.setIfInBounds id ((i, dd, rr) :: (d.shifts.getD id []).take 63) }
                 | none => d
@@ -485,10 +512,15 @@ def step (d : DSt) (ts : List String) (impl : String) : DSt × String × String 
   let o := parseImpl impl
   let sv : String :=
     match o with
-    | none => if impl = "bad-op" then "" else "unparsable implementation observation"
+    | none =>
+      if impl = "bad-op" then ""
+      else if impl.startsWith "CRASH" then s!"the implementation did not complete the operation ({impl})"
+      else "unparsable implementation observation"
     | some o =>
       if !isFlush then ""
-      else if d'.prop = 1 then specC01 d' pens' o
+      else if d'.prop = 1 then
+        let m := specC01 d' pens' o
+        if m ≠ "" ∧ d'.unclipped then m ++ " [the history scrolled a region extending beyond an ancestor's bounds]" else m
       else specC02 d o
   -- remember the implementation's grid for the next flush
   let d' := match o with
